@@ -57,6 +57,46 @@ pub fn run(cx: &mut Ctx) {
     parse_order(cx, &src);
     align_order(cx, &src);
     allowed_handled(cx, &src);
+    prefix_agreement(cx, &src);
+    crate::rules::float_rules::float_renderer(cx, "C18.G1");
+}
+
+/// A2: the prefix that is subtracted from the width for zero padding is the prefix that is printed.
+fn prefix_agreement(cx: &mut Ctx, src: &sm::Src) {
+    let rule = "C18.A2";
+    cx.rule(rule, "in format_int and format_float the prefix handed to add_magnitude_separators (whose length is deducted from the width before zero/grouping padding) is the same expression as the prefix handed to format_sign_and_align (which prints it): sign and radix prefix are counted exactly once; in format_int that prefix is sign + radix prefix");
+    cx.floor(rule, 3);
+    for name in ["format_int", "format_float"] {
+        let Some(f) = src.method("FormatSpec", name) else {
+            cx.anchor_missing(rule, name);
+            continue;
+        };
+        let mut sep: Vec<String> = vec![];
+        let mut align: Vec<String> = vec![];
+        sm::for_each_expr_in_block(&f.block, |e| {
+            if let syn::Expr::MethodCall(mc) = e {
+                if mc.method == "add_magnitude_separators" && mc.args.len() == 2 {
+                    sep.push(sm::tsc(&mc.args[1]).trim_start_matches('&').to_string());
+                }
+                if mc.method == "format_sign_and_align" && mc.args.len() == 3 {
+                    align.push(sm::tsc(&mc.args[1]).trim_start_matches('&').to_string());
+                }
+            }
+        });
+        if sep.len() == 1 && align.len() == 1 && sep[0] == align[0] {
+            cx.ok(rule, &format!("{}: `{}` is both deducted from the width and printed", name, sep[0]));
+        } else {
+            cx.fail(rule, &format!("{}/{}", rule, name), &src.loc(f), &format!("{}: add_magnitude_separators deducts the length of {:?} but format_sign_and_align prints {:?}: the padded result misses or overshoots the width", name, sep, align));
+        }
+    }
+    if let Some(f) = src.method("FormatSpec", "format_int") {
+        let t = sm::tsc(&f.block);
+        if t.contains("letsign_prefix=format!(\"{sign_str}{prefix}\");") || t.contains("letsign_prefix=format!(\"{}{}\",sign_str,prefix);") {
+            cx.ok(rule, "format_int: sign_prefix = sign + radix prefix");
+        } else {
+            cx.fail(rule, &format!("{}/format_int/sign_prefix", rule), &src.loc(f), "format_int does not build its prefix as sign followed by the radix prefix");
+        }
+    }
 }
 
 fn index_provenance(cx: &mut Ctx, src: &sm::Src) {
